@@ -948,6 +948,21 @@ class InterpBuiltins:
         sel = [a for n2, a in self.effects[len(self.effects_base):] if n2 == nme]
         return tuple(sel[k]) if k < len(sel) else None
 
+    def bi_effect_pre(self, args, kw, line):
+        """effect_pre(name, k): view (like `old`) of the heap just BEFORE the k-th call that emitted effect `name` in this
+        execution, for at(): `at(effect_pre('add_default_job', 0), p).forced_state` is what the callee could read,
+        whatever that call and the later ones wrote.  Only for effects of callees under contract."""
+        self._effects_guard()
+        self._effects_known((args[0],))
+        nme, k = args[0], args[1] if len(args) > 1 else 0
+        if self._loop_markers((nme,)):
+            raise Unsupported('effect_pre of an effect emitted inside a loop over a symbolic collection')
+        sel = [e for e in self.effects[len(self.effects_base):] if e[0] == nme]
+        heap = next((h for e, h in getattr(self, 'effect_heaps', []) if k < len(sel) and e is sel[k]), None)
+        if heap is None:
+            raise Unsupported(f'effect_pre({nme!r}, {k}): no such effect of a callee under contract on this path')
+        return OldNS({}, heap)
+
     def bi_typed(self, args, kw, line):
         return args[0]
 
